@@ -644,7 +644,12 @@ class TCPHiddenServiceEndpoint(object):
                         group_readable=self.group_readable,
                         version=self.version,
                     )
-            self.hiddenservice = yield create_d
+            try:
+                self.hiddenservice = yield create_d
+            except Exception:
+                # no service: don't leave our local listener behind
+                yield self.tcp_listening_port.stopListening()
+                raise
 
         else:
             if not self.ephemeral:
